@@ -353,6 +353,26 @@ impl SharedMemoryCreationBuilder {
             return Ok(shm);
         }
 
+        // the shared memory was created in this call, when one of the following steps fails it
+        // must be removed again, otherwise a half-created shared memory stays in the system
+        struct RemoveOnFailure {
+            name: FileName,
+            is_active: bool,
+        }
+
+        impl Drop for RemoveOnFailure {
+            fn drop(&mut self) {
+                if self.is_active {
+                    let _ = SharedMemory::shm_unlink(&self.name);
+                }
+            }
+        }
+
+        let mut remove_on_failure = RemoveOnFailure {
+            name: self.config.name,
+            is_active: true,
+        };
+
         fail!(from self.config, when fd.truncate(self.config.size), "{} since the shared memory truncation failed.", msg);
 
         let actual_shm_size = fail!(from self.config, when fd.metadata(),
@@ -408,6 +428,7 @@ impl SharedMemoryCreationBuilder {
             }
         }
 
+        remove_on_failure.is_active = false;
         trace!(from shm, "created");
         Ok(shm)
     }
